@@ -176,6 +176,57 @@ theorem apply_noneTerm (S : Schema) (fx : Fixes) (fuel : Nat) (data : List DNode
   unfold applyNone
   simp only [hfind, hg, DNode.isTerm, if_true, DNode.setDflt, DNode.setFlags, DNode.flags, flags_setDflt fa fb h1 h2 h3 h4]
 
+/-- a changed leaf / a leaf-list instance whose default flag changed becomes the node of the second tree -/
+theorem apply_term (S : Schema) (fx : Fixes) (fuel : Nat) (data : List DNode) (hp : Bool) (inh : Option Op)
+    (a b : DNode) (atr : Attrs) (i : Nat) (hwa : wfNode S a = true) (hwb : wfNode S b = true)
+    (hk : kkey S a = kkey S b) (hat : plainAttrs S true (some a) (some b) = some atr)
+    (hc : canonB S data = true) (hs : ∀ x ∈ data, shapeOk S x = true) (hg : data[i]? = some a) :
+    applyNode S fx (fuel + 1) data hp inh (withAttrs S (dupRec b) atr) = .ok (data.set i b) := by
+  have hsid := kkey_sid S a b hk
+  have hcases := plainAttrs_cases S a b atr hat
+  have hterm : S.isTerm a.sid = true := by
+    rcases hcases with ⟨h, _, _⟩ | ⟨h | h, _, _⟩
+    · exact isTerm_of_kind S _ (Or.inl h)
+    · exact isTerm_of_kind S _ (Or.inl h.1)
+    · exact isTerm_of_kind S _ (Or.inr h)
+  have hpl := wfNode_plain S a hwa
+  have hnu := plainSid_not_userOrd S a.sid hpl
+  have hnd := plainSid_not_dupInst S a.sid hpl
+  obtain ⟨fa, ma, va, ea⟩ := term_of_shape S a (wfNode_shape S a hwa) hterm
+  obtain ⟨fb, mb, vb, eb⟩ := term_of_shape S b (wfNode_shape S b hwb) (by rw [← hsid]; exact hterm)
+  rw [← hsid] at eb
+  generalize a.sid = s at ea eb hterm hnu hnd hcases
+  subst ea eb
+  have hta := wfNode_term S _ _ _ _ hwa
+  have htb := wfNode_term S _ _ _ _ hwb
+  have hma := hta.nometa
+  have hmb := htb.nometa
+  subst hma hmb
+  have hop : atr.op ≠ .create := by
+    rcases hcases with ⟨_, _, h⟩ | ⟨_, _, h⟩ <;> simp [h]
+  obtain ⟨rest, hd⟩ := withAttrs_metas S (dupRec (.term s fb [] vb)) atr hop (dupRec_metas _)
+  rw [hd]
+  simp only [dupRec, DNode.setMetas]
+  rcases hcases with ⟨hl, hsame, hop'⟩ | ⟨hkind, _, hop'⟩
+  · rw [hop']
+    have hv : va ≠ vb := by
+      intro e
+      subst e
+      have hkd : S.kind? s = some .leaf := by simpa [Schema.isKind] using hl
+      unfold sameInst at hsame
+      simp [DNode.sid, hkd, DNode.val] at hsame
+    exact apply_replace S fx fuel data hp inh s fa fb va vb rest i hl hnu hnd hv hc hs hg
+  · rw [hop']
+    have hv : va = vb := by
+      rcases hkind with ⟨hl, hsame⟩ | hll
+      · have hkd : S.kind? s = some .leaf := by simpa [Schema.isKind] using hl
+        unfold sameInst at hsame
+        simpa [DNode.sid, hkd, DNode.val] using hsame
+      · have := congrArg Prod.snd hk
+        simpa [kkey, DNode.sid, DNode.val, hll] using this
+    subst hv
+    exact apply_noneTerm S fx fuel data hp inh s fa fb va rest i hnu hnd hta.nonew hta.nowhen htb.nonew htb.nowhen hc hs hg
+
 /-! ### none on an inner node: the recursion into the matched pair -/
 
 theorem childInh_of_none (d : DNode) (inh : Option Op) (h : effOp d inh = some .none) :
